@@ -53,7 +53,13 @@ ASSUMPTIONS = ['model/YExtCom.v, YRestEc.v, YCommunity.v, YLargeCom.v are hand-w
                'correspondence run of this check; the name tables in them are compared with constants.py',
                'route-target/route-origin with a 4-octet AS need the peer to have announced the 4-octet-AS '
                'capability (the view refuses otherwise); route-origin needs non-empty remote capabilities',
-               'strings are ASCII']
+               'strings are ASCII',
+               'a REST request is served between two events of the session layer (Flask runs in the reactor thread '
+               'of yabgp), never inside one: reads are interleaved at every event boundary of the session scripts '
+               '(first session, after a loss, after manual stop/start, after a failed attempt, peer without the '
+               '4-octet-AS capability), not inside the processing of one message',
+               'lists: 1..31 extended communities, up to 63 communities, 1..21 large communities (one length octet, '
+               'as the constructors pack it)']
 IMPORTS = ('From Coq Require Import ZArith.\n'
            'From YV Require Import lib.Base lib.Dec gen.Consts model.YExtCom model.YRestEc '
            'model.YCommunity model.YLargeCom.\n')
